@@ -393,7 +393,7 @@ def eval_expmv(ctx, case, corr=None):
         out, info = res if case["return_info"] else (res, None)
     except Livelock as e:
         ctx.count(f"{tag}:livelock")
-        ctx.fail("oracle", "c18:expmv:livelock-ncv-above-ncvmax" if ncv > min(30, P.dim) else "c18:expmv:livelock",
+        ctx.fail("oracle", "c18:expmv:livelock-ncv-above-ncvmax" if max(1, ncv) > min(30, P.dim) else "c18:expmv:livelock",
                  f"expmv does not terminate: {e} (f called {W.calls} times in total); dim={P.dim} t={t} tol={tol} ncv={ncv} hermitian={herm}",
                  case=case, concrete=True)
         return
@@ -407,6 +407,12 @@ def eval_expmv(ctx, case, corr=None):
             ctx.case(case, nontrivial=False)
             return
         ctx.fail("oracle", "c18:expmv:exception", f"expmv raised YastnError: {e}", case=case, concrete=True)
+        return
+    except (ZeroDivisionError, OverflowError) as e:
+        # `C1 = ncv * int(np.ceil((t_out - t_now) / tau_opt))` with tau_opt underflowed to 0 (Python float: ZeroDivisionError, numpy float: int(inf))
+        ctx.count(f"{tag}:{type(e).__name__}")
+        ctx.fail("oracle", "c18:expmv:tau-opt-underflow", f"expmv raised {type(e).__name__}: {e}; dim={P.dim} t={t} tol={tol} ncv={ncv} hermitian={herm}",
+                 case=case, concrete=True)
         return
     except Exception as e:
         ctx.fail("oracle", "c18:expmv:exception", f"expmv raised {type(e).__name__}: {e}; dim={P.dim} t={t} tol={tol} ncv={ncv} hermitian={herm}",
@@ -444,12 +450,16 @@ def eval_expmv(ctx, case, corr=None):
         ctx.count(f"{tag}:skip:ill-conditioned")
         return
     nref = np.linalg.norm(ref)
+    nfail = len(ctx.findings)
     if normalize:
-        nw = np.linalg.norm(w)
-        if abs(nw - 1) > max(100 * tol, 1e-9):   # unit norm up to the orthogonality of the Krylov basis, i.e. to the solver's tolerance
-            ctx.fail("oracle", "c18:expmv:normalize", f"normalize=True but the result has norm {nw!r}", case=case, concrete=True)
+        # direction and norm are judged separately
+        nw = float(np.linalg.norm(w))
+        if not abs(nw - 1) <= max(100 * tol, 1e-9):
+            ctx.fail("oracle", "c18:expmv:normalize-not-unit" + (":lanczos" if herm else ""),
+                     f"normalize=True but the result has norm {nw!r} (dim={P.dim} t={t} tol={tol} ncv={ncv} hermitian={herm})", case=case, concrete=True)
         ref = ref / nref
         nref = 1.0
+        w = w / max(nw, 1e-300)
     err = float(np.linalg.norm(w - ref) / nref)
     bound = max(100 * tol, 1e-9) * amp + 100 * unc
     ctx.count(f"{tag}:compared")
@@ -460,7 +470,7 @@ def eval_expmv(ctx, case, corr=None):
                  f"expmv differs from the dense {what}: relative error {err:.3e} > {bound:.3e} (tol={tol}, error amplification {amp:.2f}); "
                  f"dim={P.dim} sym={case['prob']['sym']} t={t} ncv={ncv} hermitian={herm} normalize={normalize} start={case['start']}",
                  case=case, concrete=True)
-    if corr is not None:
+    if corr is not None and len(ctx.findings) == nfail:
         corr.append((case, P, x, w, info, amp, W.calls))
 
 
@@ -498,12 +508,17 @@ def corr_expmv(ctx, items):
             ctx.fail("correspondence", "c18:corr:expmv-model-error", f"model run failed: {str(r)[:200]}", case=case)
             continue
         wm = vecP(r["v"])
+        if case["normalize"]:
+            wm = wm / max(np.linalg.norm(wm), 1e-300)
         same_path = info is not None and info["steps"] == len(r["steps"]) and calls == r["nf"]
         if info is not None:
             ctx.count("corr:expmv:" + ("same-path" if same_path else "different-path"))
         d = float(np.linalg.norm(w - wm) / max(np.linalg.norm(w), 1e-300))
-        bound = (1e-8 if same_path else max(1e-8, 100 * case["tol"])) * amp
-        ctx.extra["corr_expmv_max_dev_over_bound"] = max(ctx.extra.get("corr_expmv_max_dev_over_bound", 0.0), d / bound)
+        # same accept/reject path: agreement to round-off; different path (a comparison flipped by rounding): both runs are within the
+        # oracle bound of exp(tF)v, so within twice that bound of each other
+        bound = 1e-8 * amp if same_path else (2 * max(100 * case["tol"], 1e-9) + 1e-8) * amp
+        kx = "corr_expmv_max_dev_over_bound:" + ("same-path" if same_path else "different-path")
+        ctx.extra[kx] = max(ctx.extra.get(kx, 0.0), d / bound)
         if not d <= bound:
             ctx.fail("correspondence", "c18:corr:expmv", f"model and real expmv differ by {d:.3e} (bound {bound:.1e}, same path: {same_path})", case=case)
         # the model's accepted exponents add up to t (theorem expmv_time, checked on the Float run)
@@ -664,18 +679,21 @@ def eval_eigs(ctx, case, corr=None):
             ctx.fail("oracle", "c18:eigs:exact", f"Krylov space spans the whole sector (dim {P.dim}) but the returned values (keys {keys.tolist()}) are not the "
                      f"leading eigenvalues of the dense matrix (keys {kr.tolist()})", case=case, concrete=True)
     if corr is not None:
-        corr.append((case, P, x, ncv, vals, ys, kappa))
+        corr.append((case, P, x, ncv, vals, ys, kappa, m))
 
 
 def corr_eigs(ctx, items):
     if ctx.drv is None:
         return
-    for case, P, x, ncv, vals, ys, kappa in items:
+    for case, P, x, ncv, vals, ys, kappa, m_real in items:
         cplx = bool(P.cplx or np.iscomplexobj(x) or not case["hermitian"])   # eig of a real matrix is complex
         base = {"cplx": cplx, "F": matJ(P.Fd, cplx), "v0": vecJ(x, cplx), "ncv": int(ncv), "herm": bool(case["hermitian"])}
         r1 = ctx.drv.call(dict(base, op="expand", tol=bits(1e-13)))
         if not r1.get("ok") or "T" not in r1:
             ctx.fail("correspondence", "c18:corr:eigs-model-error", f"model expand failed: {str(r1)[:200]}", case=case); continue
+        if r1["m"] != m_real:
+            ctx.count("corr:eigs:skip-breakdown-detected-differently")   # |w| at the round-off threshold 1e-13: legitimately rounding dependent
+            continue
         T = np.array([[cnumP(z) for z in row] for row in r1["T"]]).reshape(r1["m"], r1["m"])
         if case["hermitian"]:
             ev, U = np.linalg.eigh(T)
